@@ -107,6 +107,17 @@ CHECKS.update({
         ref="DESIGN.md section 2 C13"),
 })
 
+CHECKS.update({
+    "C17": dict(
+        technique="runtime monitoring: monitor on every Signal.__array_ufunc__ call recomputing the ufunc independently from snapshots of "
+                  "the unwrapped operands (bitwise comparison), checking wrapper class/metadata, out= identity and refusal paths; "
+                  "array-conversion oracle",
+        text="Exploration: all elementwise numpy ufuncs (nin<=2, nout<=2) x nine operand arrangements x six classes x both backends x "
+             "out=/in-place forms are driven; every dispatch into Signal.__array_ufunc__ is judged online; reduce/accumulate/outer/at/"
+             "reduceat/matmul must raise TypeError; np.asarray/np.array with dtype/copy must equal the same call on the data.",
+        ref="DESIGN.md section 2 C17"),
+})
+
 NOT_YET = {}
 
 
